@@ -20,7 +20,7 @@ Classes(f) ==
     [] f = "cid" -> {"absent", "ok", "colon"}
     [] f = "sec" -> {"absent", "literal", "ref", "refNoName"}
     [] f = "hdr" -> {"absent", "ok", "headerOnly", "preambleOnly"}
-    [] f = "sc"  -> {"absent", "empty", "profile", "openidX", "containsWord"}
+    [] f = "sc"  -> {"absent", "empty", "profile", "openidX", "containsWord", "otherCase"}
 
 Valid  == [ep |-> "explicit", cb |-> "ok", lo |-> "ok", cid |-> "ok", sec |-> "literal", hdr |-> "ok", sc |-> "absent"]
 Absent == [f \in Fields |-> "absent"]
@@ -55,6 +55,7 @@ HdrJ(c, T) == CASE c = "ok" -> [id_token |-> [header |-> "x-id-" \o T, preamble 
                 [] OTHER -> Nil
 ScJ(c, T) == CASE c = "empty" -> [scopes |-> <<>>] [] c = "profile" -> [scopes |-> <<"profile-" \o T>>] [] c = "openidX" -> [scopes |-> <<"openid", "x-" \o T>>]
                [] c = "containsWord" -> [scopes |-> <<"myopenid-" \o T, "https://api.example.com/openid.read">>]   \* the word, but not the scope
+               [] c = "otherCase" -> [scopes |-> <<"OpenID", "profile-" \o T, "OPENID">>]                            \* scope values are case-sensitive (RFC 6749 3.3)
                [] OTHER -> Nil
 
 \* verifMark keeps the rendering a JSON object even when every field is absent; the driver strips it before loading
